@@ -48,7 +48,7 @@ PROPS["C03"] = {
 
 PROPS["C09"] = {
     "pkg": "c09", "level": "exploration",
-    "rule": ("rapid state machine over one nsqd.DiskQueue on tmpfs: put(m) with |m| in {0, tiny, around maxBytesPerFile-4, up to 3 segments}, "
+    "rule": ("rapid state machine over one nsqd.DiskQueue on tmpfs: put(m) with |m| in {0, tiny, around maxBytesPerFile-4, up to 3 segments; 1 in 60: 64 KiB .. 3 MiB}, "
              "get (or, when the model is empty, a negative check that nothing arrives), close+reopen; maxBytesPerFile in {1..1000}, "
              "syncEvery in {1..8, never}; oracle = slice model: every get returns the model head byte-for-byte, Depth() equals the model "
              "length after every put / completed get / reopen, final reopen drains to exactly the model and then nothing. Non-trivial: "
@@ -214,7 +214,7 @@ PROPS["C19"] = {
 
 PROPS["C01"] = {
     "pkg": "c01", "level": "exploration",
-    "rule": ("rapid draws a table by construction: 0-3 blacklist entries, 0-3 rewriters (literal with max in {-1,0,1,2,5}, /regex/ with ${n} templates, "
+    "rule": ("rapid draws a table by construction: 0-3 blacklist entries, 0-3 rewriters (the same rule may appear twice; 1 name in 6 carries a leading dot; literal with max in {-1,0,1,2,5}, /regex/ with ${n} templates, "
              "not-clauses), 0-3 aggregations (mocked clock, some drop-raw, cache on/off), 1-6 routes in order, each a capture route or a real "
              "sendAllMatch / sendFirstMatch / consistentHashing route with 1-4 real destinations (refusing loopback address, spool off, so every "
              "hand-off is counted in its conn_down_no_spool counter); every route and destination gets a six-option filter from the shared "
@@ -234,7 +234,7 @@ PROPS["C01"] = {
 
 PROPS["C04"] = {
     "pkg": "c04", "level": "exploration",
-    "rule": ("forwarded_line: rapid draws 0-4 rewriters (literal old/new with max in {-1,0,1,2,5}, /regex/ rules with ${n}/$n templates, not-clauses as "
+    "rule": ("forwarded_line: rapid draws 0-4 rewriters (a rule may be listed twice and is then applied twice; literal old/new with max in {-1,0,1,2,5}, /regex/ rules with ${n}/$n templates, not-clauses as "
              "substring and /regex/, names with repeated occurrences of old) and 1-8 valid lines with arbitrary whitespace layout (leading / "
              "trailing / multiple separators, tab, vertical tab) and value / timestamp tokens in many numeric spellings; the table has two capture "
              "routes, a real sendAllMatch route with a LIVE loopback endpoint between them, and a buffered aggregation (inbox 500) so messages are "
@@ -274,7 +274,7 @@ PROPS["C11"] = {
 
 PROPS["C02"] = {
     "pkg": "c02", "level": "exploration",
-    "rule": ("rapid draws byte strings shaped like lines: 0-5 fields separated by space / tab / VT / CR / double spaces, names from a grammar (legacy names, "
+    "rule": ("(in half of the cases the table also holds a blacklist entry: validity is decided first, a VALID line with a blacklisted name is counted as blacklisted and goes nowhere) rapid draws byte strings shaped like lines: 0-5 fields separated by space / tab / VT / CR / double spaces, names from a grammar (legacy names, "
              "leading dot, consecutive dots, illegal characters, NUL and 8-bit bytes, ';tag=value' appendices valid and invalid in each way, "
              "metrics2.0 '=' and '_is_' names with / without unit and mtype, mixed styles, version-detection edge cases), values and timestamps "
              "from numeric spellings and near-misses, plus ~10% random bytes; the validation levels are drawn as CONFIGURATION TEXT (toml decoded "
@@ -415,7 +415,7 @@ PROPS["C07"] = {
 
 PROPS["C17"] = {
     "pkg": "c17", "level": "exploration",
-    "rule": ("rapid draws a scripted httptest server (a sequence of 0-8 per-request outcomes for the /metrics path out of {200, 400, 503, hang past the client "
+    "rule": ("rapid draws a scripted httptest server (a sequence of 0-8 per-request outcomes for the /metrics path out of {200, 400, 503 (error bodies: text, empty, JSON error object, a publish report with zeros, null, HTML), silence past the client "
              "timeout, connection reset}, followed by an all-200 tail; config posts to other paths are ignored), a grafanaNet route configuration "
              "(concurrency 1-4, bufSize 2..1000 per worker, flushMaxNum 1-50, flushMaxWait 5-50 ms, timeout 50-200 ms, errBackoffMin 1 ms, blocking "
              "on/off, org id) and a stream of 1-120 points over 1-12 series with increasing timestamps and pauses; optionally Shutdown() right "
